@@ -294,3 +294,137 @@ Example ignored_result_not_fail_closed :
   let c := script_ignoring [32] [7%N] [] (fun l => Ok (concat l)) in
   fst (run src c (mkE 0 [])) = Ok [7%N] /\ src 0 = None /\ drawn (snd (run src c (mkE 0 []))) = 1.
 Proof. cbn. auto. Qed.
+
+(* ================================================================== the pre-computed nonce pool *)
+(* SM2_SIGN_CTX / SM2_ENC_CTX keep an array of POOL pre-computed nonces and a counter [live] of the
+   unused ones (sm2_sign_finish: `if (num_pre_comp == 0) { if (pre_compute(pre_comp) != 1) return -1;
+   num_pre_comp = 32; } num_pre_comp--; use pre_comp[num_pre_comp]`).  A nonce is identified by the
+   index of the entropy draw it came from.  pre_compute overwrites the slots in order and stops at
+   the first failing draw, so after a failure the array holds a mixture of new and already-used
+   nonces: what keeps them from being used again is only that the pool stays marked empty. *)
+Section Pool.
+Variable POOL : nat.                      (* 32 for signing, 8 for encryption *)
+Variable fails : nat -> bool.             (* does draw number i fail? *)
+
+Record pstate := mkP { slots : nat -> nat; live : nat; pdrawn : nat; used : list nat }.
+
+Definition write (j v : nat) (s : nat -> nat) : nat -> nat := fun i => if Nat.eqb i j then v else s i.
+
+(* pre_compute from slot j on: k slots, one draw each *)
+Fixpoint fill (k j : nat) (s : nat -> nat) (d : nat) : bool * (nat -> nat) * nat :=
+  match k with
+  | 0 => (true, s, d)
+  | S k' => if fails d then (false, s, S d) else fill k' (S j) (write j d s) (S d)
+  end.
+
+(* one signing attempt on the context: Some nonce on success, None when the library reports failure *)
+Definition sign_step (mark_before_refill : bool) (st : pstate) : option nat * pstate :=
+  match live st with
+  | 0 =>
+      match fill POOL 0 (slots st) (pdrawn st) with
+      | (true, s', d') =>
+          match POOL with
+          | 0 => (None, mkP s' 0 d' (used st))
+          | S p => (Some (s' p), mkP s' p d' (s' p :: used st))
+          end
+      | (false, s', d') =>
+          (* the correct code leaves [live] = 0; the broken variant has already set it to POOL *)
+          (None, mkP s' (if mark_before_refill then POOL else 0) d' (used st))
+      end
+  | S l => (Some (slots st l), mkP (slots st) l (pdrawn st) (slots st l :: used st))
+  end.
+
+Fixpoint sign_many (mark : bool) (n : nat) (st : pstate) : pstate :=
+  match n with 0 => st | S n' => sign_many mark n' (snd (sign_step mark st)) end.
+
+Lemma fill_spec : forall k j s d ok s' d',
+  fill k j s d = (ok, s', d') ->
+  d <= d' /\
+  (forall i, i < j -> s' i = s i) /\
+  (ok = true -> d' = d + k /\ forall i, j <= i < j + k -> s' i = d + (i - j)).
+Proof.
+  induction k as [|k IH]; intros j s d ok s' d' H; cbn [fill] in H.
+  - inversion H; subst. split; [lia|]. split; [auto|]. intros _. split; [lia|]. intros i Hi. lia.
+  - destruct (fails d).
+    + inversion H; subst. split; [lia|]. split; [auto|]. discriminate.
+    + destruct (IH _ _ _ _ _ _ H) as [H1 [H2 H3]]. split; [lia|]. split.
+      * intros i Hi. rewrite H2 by lia. unfold write. destruct (Nat.eqb_spec i j); [lia|reflexivity].
+      * intro Hok. destruct (H3 Hok) as [H4 H5]. split; [lia|]. intros i Hi.
+        destruct (Nat.eq_dec i j) as [->|Hne].
+        -- rewrite H2 by lia. unfold write. rewrite Nat.eqb_refl. lia.
+        -- rewrite H5 by lia. lia.
+Qed.
+
+(* the invariant: the live slots hold pairwise different draw indices below [pdrawn], none of them
+   used before; the used ones are pairwise different and below [pdrawn] *)
+Definition pool_inv (st : pstate) : Prop :=
+  (forall i, i < live st -> slots st i < pdrawn st) /\
+  (forall i i', i < live st -> i' < live st -> slots st i = slots st i' -> i = i') /\
+  (forall i, i < live st -> ~ In (slots st i) (used st)) /\
+  NoDup (used st) /\
+  (forall v, In v (used st) -> v < pdrawn st).
+
+Lemma pool_inv_step : forall st, pool_inv st -> pool_inv (snd (sign_step false st)).
+Proof.
+  intros st [I1 [I2 [I3 [I4 I5]]]]. unfold sign_step.
+  destruct (live st) as [|l] eqn:EL.
+  - destruct (fill POOL 0 (slots st) (pdrawn st)) as [[ok s'] d'] eqn:EF.
+    destruct (fill_spec _ _ _ _ _ _ _ EF) as [F1 [_ F3]].
+    destruct ok.
+    + destruct (F3 eq_refl) as [F4 F5]. destruct POOL as [|p] eqn:EP; cbn [snd].
+      * unfold pool_inv; cbn. repeat split; try (intros; lia); auto. intros v Hv. specialize (I5 v Hv). lia.
+      * assert (S5 : forall i, i < S p -> s' i = pdrawn st + i).
+        { intros i Hi. rewrite F5 by lia. lia. }
+        unfold pool_inv; cbn [slots live pdrawn used]. repeat split.
+        -- intros i Hi. rewrite S5 by lia. lia.
+        -- intros i i' Hi Hi' E. rewrite !S5 in E by lia. lia.
+        -- intros i Hi [E|Hin].
+           ++ rewrite !S5 in E by lia. lia.
+           ++ specialize (I5 _ Hin). rewrite S5 in I5 by lia. lia.
+        -- constructor; [|exact I4]. intro Hin. specialize (I5 _ Hin). rewrite S5 in I5 by lia. lia.
+        -- intros v [E|Hin]; [subst; rewrite S5 by lia; lia|]. specialize (I5 _ Hin). lia.
+    + cbn [snd]. unfold pool_inv; cbn [slots live pdrawn used]. repeat split; try (intros; lia); auto.
+      intros v Hv. specialize (I5 v Hv). lia.
+  - cbn [snd]. unfold pool_inv; cbn [slots live pdrawn used]. repeat split.
+    + intros i Hi. apply I1. lia.
+    + intros i i' Hi Hi' E. apply I2; auto; lia.
+    + intros i Hi [E|Hin].
+      * assert (l = i) by (apply I2; auto; lia). lia.
+      * apply (I3 i); auto; lia.
+    + constructor; [|exact I4]. apply I3. lia.
+    + intros v [E|Hin]; [subst; apply I1; lia|]. apply I5; exact Hin.
+Qed.
+
+(* a failed refill leaves the pool marked empty *)
+Theorem failed_refill_marks_pool_empty : forall st,
+  live st = 0 -> fst (sign_step false st) = None -> POOL <> 0 -> live (snd (sign_step false st)) = 0.
+Proof.
+  intros st HL HN HP. unfold sign_step in *. rewrite HL in *.
+  destruct (fill POOL 0 (slots st) (pdrawn st)) as [[ok s'] d']. destruct ok.
+  - destruct POOL; [congruence|]. cbn in HN. discriminate.
+  - reflexivity.
+Qed.
+
+(* consequently, over any number of signing attempts on one context, with the entropy source
+   failing wherever it likes, no nonce (draw) is ever used for two signatures *)
+Theorem pool_no_reuse : forall n s0,
+  let st := sign_many false n (mkP s0 0 0 []) in NoDup (used st).
+Proof.
+  intros n s0. cbn zeta.
+  assert (H : forall n st, pool_inv st -> pool_inv (sign_many false n st)).
+  { induction n0 as [|m IH]; intros st Hst; cbn [sign_many]; [exact Hst|]. apply IH. apply pool_inv_step. exact Hst. }
+  destruct (H n (mkP s0 0 0 [])) as [_ [_ [_ [Hd _]]]].
+  - unfold pool_inv; cbn. repeat split; try (intros; lia); try constructor; try (intros ? []).
+  - exact Hd.
+Qed.
+
+End Pool.
+
+(* witness: with the counter set BEFORE the fallible refill (the seeded change to sm2_sign_finish)
+   a pool of 2, a failure at draw 3 (second slot of the second refill) and five attempts use draw
+   1 twice *)
+Example marking_before_refill_reuses_a_nonce :
+  let fails := fun d => Nat.eqb d 3 in
+  used (sign_many 2 fails true 5 (mkP (fun _ => 0) 0 0 [])) = [2; 1; 0; 1] /\
+  used (sign_many 2 fails false 5 (mkP (fun _ => 0) 0 0 [])) = [4; 5; 0; 1].
+Proof. cbn. split; reflexivity. Qed.
